@@ -388,6 +388,10 @@ func writeComputedFieldExpression(w *formatting.IndentedWriter, expression dsl.E
 					w.Indented(func() {
 						dims := dsl.ToGeneralizedType(arrType).Dimensionality.(*dsl.Array).Dimensions
 						for i, d := range *dims {
+							if d.Name == nil {
+								// not every dimension needs to have a name
+								continue
+							}
 							fmt.Fprintf(w, "if dim_name == \"%s\":\n", *d.Name)
 							w.Indented(func() {
 								fmt.Fprintf(w, "return %d\n", i)
